@@ -287,6 +287,38 @@ func GenC08(r *hx.Rng, tier string, w io.Writer) {
 	x.produce(true)
 	x.reset(5, 3)
 	x.produce(false)
+	// a block repeating an earlier block's transaction list (same data commitment) after the earlier one was accepted,
+	// then the chain goes idle: nothing is genuinely waiting once the DA layer accepted it, production must go on
+	x.reset(1, 3)
+	fmt.Fprintln(w, "produce txs=73616d65,74786c697374")
+	x.sub("subh", "-")
+	x.sub("subd", "-")
+	fmt.Fprintln(w, "produce txs=73616d65,74786c697374")
+	x.produce(true)
+	x.produce(true)
+	for i := 0; i < 3; i++ {
+		x.sub("subh", "-")
+		x.sub("subd", "-")
+		x.sub("subd", "-")
+		x.produce(true)
+	}
+	// restarts (clean and crash) on a chain with an initial height above 1 and a backlog, then an accepting DA layer
+	for _, kind := range []string{"restart", "crash keep=0", "crash keep=2"} {
+		x.reset(4, 2)
+		x.produce(false)
+		x.sub("subh", "error")
+		fmt.Fprintln(w, kind)
+		x.sub("subh", "-")
+		x.sub("subd", "-")
+		x.sub("subd", "-")
+		x.produce(false)
+		x.produce(true)
+		fmt.Fprintln(w, "restart")
+		x.sub("subh", "-")
+		x.sub("subd", "-")
+		x.sub("subd", "-")
+		x.produce(false)
+	}
 	lims := []uint64{1, 2, 3, 5}
 	n := 50
 	if tier == "thorough" {
@@ -298,6 +330,7 @@ func GenC08(r *hx.Rng, tier string, w io.Writer) {
 		if r.Chance(6) {
 			ih = 4
 		}
+		x.dups = r.Chance(25)
 		x.reset(ih, lim)
 		allEmpty := r.Chance(8)
 		steps := 6 + r.Intn(20)
@@ -321,6 +354,16 @@ func GenC08(r *hx.Rng, tier string, w io.Writer) {
 				} else {
 					x.sub("subd", x.script(2))
 				}
+			case 6:
+				if r.Chance(35) {
+					if r.Chance(50) {
+						fmt.Fprintln(w, "restart")
+					} else {
+						fmt.Fprintf(w, "crash keep=%d\n", r.Intn(4))
+					}
+					break
+				}
+				fallthrough
 			default:
 				// the DA layer is back: both loops tick with an accepting DA (the data loop twice: trailing empty
 				// blocks are passed over by the tick after the one that got the data before them accepted), then
